@@ -517,7 +517,9 @@ func (c *Ctx) c04DecoderFn(f *ssa.Function, data *ssa.Parameter, lenStore *ssa.S
 				uses = append(uses, ci)
 			}
 			h := flow.StaticCallee(ci)
-			if h != nil && h.Blocks != nil && c.P.IsLibrary(h) && pkgOf(h).Path() == pkgDiam && !fam[h] && h.Signature.Recv() != nil && flow.RecvTypeName(h.Signature) == "AVP" && !c.isAVPDecodeFn(h) {
+			isAVPMethod := h != nil && h.Signature.Recv() != nil && flow.RecvTypeName(h.Signature) == "AVP"
+			isPayloadHelper := h != nil && h.Signature.Recv() == nil && byteParam(h) != nil && (h.Object() == nil || !h.Object().Exported())
+			if h != nil && h.Blocks != nil && c.P.IsLibrary(h) && pkgOf(h).Path() == pkgDiam && !fam[h] && (isAVPMethod || isPayloadHelper) && !c.isAVPDecodeFn(h) {
 				fam[h] = true
 				work = append(work, h)
 			}
